@@ -39,12 +39,31 @@ Definition quantity_eqb (a b : quantity) : bool :=
   | _, _ => false
   end.
 
-Definition site_table := transport -> list quantity.
+(* The class of a request, as far as a handler can tell requests apart before it decodes them:
+   the HTTP method (the handlers single out GET), and bit 31 / bit 15 of the index word of a
+   socket, websocket or udp header (parseHeader's [ok]; the stock clients never set it on a
+   request, a hand-made frame may).  Whether a length is announced is the third coordinate
+   ([is_none decl], "chunked"). *)
+Record rclass := { r_get : bool; r_flag : bool }.
+
+Definition all_classes : list rclass :=
+  [ {| r_get := false; r_flag := false |}; {| r_get := true; r_flag := false |};
+    {| r_get := false; r_flag := true |};  {| r_get := true; r_flag := true |} ].
+
+Definition is_none {A} (o : option A) : bool := match o with None => true | Some _ => false end.
+
+(* For each transport and each class of request (method / index flag, length announced or not):
+   the quantities the handler compares with the limit ON THAT PATH.  The extractor records the
+   path condition of every comparison (enclosing if / else / case arms, the other conjuncts of
+   its condition); a comparison guarded by the method, by ContentLength < 0 or by ok belongs
+   to the classes that satisfy the guard only. *)
+Definition site_table := transport -> rclass -> bool -> list quantity.
 
 Definition has (q : quantity) (S : list quantity) : bool := existsb (quantity_eqb q) S.
 
-(* the comparison sites of the pinned tree (each is  X > h.Service.MaxRequestLength) *)
-Definition pinned_sites : site_table := fun tr =>
+(* the comparison sites of the pinned tree (each is  X > h.Service.MaxRequestLength); none of
+   them depends on the class of the request *)
+Definition pinned_sites : site_table := fun tr _ _ =>
   match tr with
   | Mock => [QBodyLen]               (* if len(request) > h.Service.MaxRequestLength *)
   | NetHttp => [QContentLength; QBodyLen]
@@ -60,10 +79,27 @@ Definition pinned_sites : site_table := fun tr =>
 
 (* historical: the sites before the fix commits 72ffd23 / e18593a -- the HTTP handlers looked at
    ContentLength only, which is -1 for a chunked body *)
-Definition original_sites : site_table := fun tr =>
+Definition original_sites : site_table := fun tr k c =>
   match tr with
   | NetHttp | FastHttp => [QContentLength]
-  | _ => pinned_sites tr
+  | _ => pinned_sites tr k c
+  end.
+
+(* two tables with class-dependent sites, as the extractor produces them for code whose tests
+   depend on the method or on the index flag (used as Examples in Props/C13.v):
+     net/http:  if Method == "GET" {...} else if ContentLength > max {413};
+                ... if ContentLength < 0 && len(data) > max {413}
+     socket:    case ok && length > max *)
+Definition example_method_sites : site_table := fun tr k c =>
+  match tr with
+  | NetHttp => (if r_get k then [] else [QContentLength]) ++ (if c then [QBodyLen] else [])
+  | _ => pinned_sites tr k c
+  end.
+
+Definition example_flag_sites : site_table := fun tr k c =>
+  match tr with
+  | Tcp | Unix => if r_flag k then [] else [QDeclared]
+  | _ => pinned_sites tr k c
   end.
 
 (* ---- one request on the wire ---------------------------------------------------------------
@@ -83,12 +119,16 @@ Definition content_length (decl : option Z) : Z := match decl with Some d => d |
    is delimited by the carrier too, and its header must agree: a datagram whose header announces
    anything but the number of bytes it carries is no request (it is dropped as invalid before
    the limit is looked at).  [None]: no complete request. *)
-Definition framed (tr : transport) (decl : option Z) (sent : Z) : option Z :=
+Definition framed (tr : transport) (k : rclass) (decl : option Z) (sent : Z) : option Z :=
   match tr, decl with
+  | Websocket, _ =>
+      (* a message whose index word has bit 31 set is no request: InvalidRequestError, connection dropped *)
+      if r_flag k then None
+      else match decl with None => Some sent | Some d => if sent <? d then None else Some d end
   | Mock, _ => Some sent
   | Udp, Some d => if d =? sent then Some sent else None
-  | (NetHttp | FastHttp | Websocket), None => Some sent
-  | (NetHttp | FastHttp | Websocket | Tcp | Unix), Some d => if sent <? d then None else Some d
+  | (NetHttp | FastHttp), None => Some sent
+  | (NetHttp | FastHttp | Tcp | Unix), Some d => if sent <? d then None else Some d
   | (Tcp | Unix | Udp), None => None
   end.
 
@@ -107,9 +147,9 @@ Inductive verdict :=
 (* sites S: is quantity q, with value v, compared and above the limit?   X > max *)
 Definition over (S : list quantity) (q : quantity) (max v : Z) : bool := has q S && (v >? max).
 
-Definition admission (sites : site_table) (tr : transport) (max : Z) (decl : option Z) (sent : Z)
-  : verdict :=
-  let S := sites tr in
+Definition admission (sites : site_table) (tr : transport) (max : Z) (k : rclass)
+  (decl : option Z) (sent : Z) : verdict :=
+  let S := sites tr k (is_none decl) in
   match tr with
   | Mock =>
       (* if len(request) > max { return nil, ErrRequestEntityTooLarge }; return h.Service.Handle(ctx, request) *)
@@ -134,7 +174,7 @@ Definition admission (sites : site_table) (tr : transport) (max : Z) (decl : opt
          if ctx.Request.Header.ContentLength() > max { 413; return }
          body := ctx.Request.Body(); if len(body) > max { 413; return }
          h.Service.Handle(ctx, copy of body) *)
-      match framed FastHttp decl sent with
+      match framed FastHttp k decl sent with
       | None => Reject400
       | Some n =>
           if over S QContentLength max (content_length decl) then Reject413
@@ -154,7 +194,10 @@ Definition admission (sites : site_table) (tr : transport) (max : Z) (decl : opt
   | Websocket =>
       (* messageType, data, err := conn.ReadMessage()  -- the library assembles the message
          body := data[4:]; if len(body) > max { sendResponse(..., ErrRequestEntityTooLarge); return } *)
-      match framed Websocket decl sent with
+      (* index, ok := parseHeader(data[:4]); if !ok { reportError(InvalidRequestError{}); return } *)
+      if r_flag k then Malformed
+      else
+      match framed Websocket k decl sent with
       | None => Starve
       | Some n => if over S QBodyLen max n then RejectInBand else Process n
       end
@@ -183,25 +226,39 @@ Inductive event := EvIOPlugin (n : Z) | EvInvoke.
 Definition handle_log (valid_call : bool) (n : Z) : list event :=
   EvIOPlugin n :: (if valid_call then [EvInvoke] else []).
 
-Definition serve (sites : site_table) (tr : transport) (max : Z) (decl : option Z) (sent : Z)
-  (valid_call : bool) : verdict * list event :=
-  let v := admission sites tr max decl sent in
+Definition serve (sites : site_table) (tr : transport) (max : Z) (k : rclass) (decl : option Z)
+  (sent : Z) (valid_call : bool) : verdict * list event :=
+  let v := admission sites tr max k decl sent in
   (v, match v with Process n => handle_log valid_call n | _ => [] end).
 
 (* ---- the declarations the peers of the library produce ------------------------------------ *)
-Definition truthful (tr : transport) (decl : option Z) (sent : Z) : bool :=
+Definition truthful (tr : transport) (k : rclass) (decl : option Z) (sent : Z) : bool :=
   match tr, decl with
   | Mock, _ => true
-  | (NetHttp | FastHttp | Websocket), None => true
+  | Websocket, None => negb (r_flag k)
+  | Websocket, Some d => negb (r_flag k) && (d =? sent)
+  | (NetHttp | FastHttp), None => true
   | (Tcp | Unix | Udp), None => false
   | _, Some d => d =? sent
   end.
 
-(* does the table make the handler look at the quantity that delimits the request? *)
-Definition covers (tr : transport) (S : list quantity) : bool :=
+(* do the sites on the path of this class of requests make the handler look at the quantity that
+   delimits the request?  For an HTTP request that announces its length ContentLength will do,
+   for a chunked one only the bytes read. *)
+Definition covers (tr : transport) (chunked : bool) (S : list quantity) : bool :=
   match tr with
   | Tcp | Unix | Udp => has QDeclared S || has QBodyLen S
-  | _ => has QBodyLen S
+  | NetHttp | FastHttp => if chunked then has QBodyLen S else has QContentLength S || has QBodyLen S
+  | Mock | Websocket => has QBodyLen S
+  end.
+
+(* the classes that have requests at all: a socket or udp frame always announces a length; a
+   websocket message with the flag set is refused as invalid whatever its size *)
+Definition expressible (tr : transport) (k : rclass) (chunked : bool) : bool :=
+  match tr with
+  | Tcp | Unix | Udp => negb chunked
+  | Websocket => negb (r_flag k)
+  | _ => true
   end.
 
 (* ---- the way back: what the server answers and what the client makes of it ---------------- *)
